@@ -12,6 +12,7 @@
    Result: the Undo/New discipline holds for every well-formed history (step_inv, run_wild); the re-feed clause
    holds as long as the LIB NUMBER does not decrease (it does not hold in general: Properties/C01_Wild.v). *)
 From BV Require Import Base.Prelude Model.Block Model.ForkDB Model.Forkable Spec.Consumer Spec.Universe
+  Spec.C01_Spec Spec.C01_Moving_Spec Spec.C01_Roots_Spec Spec.C01_Wild_Spec
   Proofs.Fk.StoreFacts Proofs.Fk.WalkFacts Proofs.Fk.LoopFacts Proofs.Fk.StoreChange Proofs.Fk.SwitchFacts
   Proofs.Fk.FixedLib Proofs.Fk.RootsBase Proofs.Fk.MovingLibStore Proofs.Fk.MovingLibWalk Proofs.Fk.MovingLibLoops
   Proofs.Fk.MovingLibInv Proofs.Fk.WildWalks.
@@ -771,5 +772,60 @@ Section WildLib.
         (s3 & evU & evRN & Hrun & Happ & HI3 & Hk3 & Hls3 & Hlr3 & Hnsd3).
       cbn [rev] in Hrun. rewrite Hfil in Hrun. fold en in Hrun. rewrite Hrun.
       eapply step_finish; eauto; congruence.
+  Qed.
+
+  (* ---------------------------------------------------------------- whole histories *)
+
+  Definition Seen (s : fstate) (seen : list block) : Prop :=
+    forall x, In x seen -> In x U /\ known s x.
+
+  Lemma run_wild : forall h s Fin S seen, Inv s Fin S -> (forall b, In b h -> In b U) -> Seen s seen ->
+    let t := fk_run cfg s h in
+    length t = length h /\ Forall (fun x => snd x = ROk) t /\
+    (exists S', apply_all (ri r0) S (all_events t) = Some S') /\
+    (lib_mono_b cfg s h = true -> c01_refeed_b seen h t = true).
+  Proof.
+    induction h as [|b h IH]; intros s Fin S seen HI Hh Hseen.
+    - cbn. repeat split; [constructor | exists S; reflexivity].
+    - destruct (step_inv s Fin S b HI (Hh b (or_introl eq_refl))) as
+        (s' & evA & evQ & Fin' & S' & Hstep & Happ & HI' & HsQ & Hk1 & Hk2 & Hk3).
+      cbn [fk_run lib_mono_b]. rewrite Hstep.
+      assert (Happ' : apply_all (ri r0) S (evA ++ evQ) = Some S').
+      { rewrite (apply_all_app _ _ _ _ _ Happ). apply apply_all_inert. exact HsQ. }
+      (* the run after this step, for the two uses of the induction hypothesis *)
+      assert (Hh' : forall x, In x h -> In x U) by (intros x Hx; apply Hh; right; exact Hx).
+      destruct (IH s' Fin' S' [] HI' Hh' (fun x (Hx : In x []) => match Hx with end)) as (Hlen & Hok & (S2 & Happ2) & _).
+      cbn zeta in *. split; [|split; [|split]].
+      + cbn [length]. rewrite Hlen. reflexivity.
+      + constructor; [reflexivity | exact Hok].
+      + exists S2. unfold all_events. cbn [map concat fst]. fold (all_events (fk_run cfg s' h)).
+        rewrite (apply_all_app _ _ _ _ _ Happ'). exact Happ2.
+      + intros Hm. apply andb_true_iff in Hm as [Hm1 Hm2]. apply N.leb_le in Hm1.
+        assert (Hseen' : Seen s' (b :: seen)).
+        { intros x [<-|Hx].
+          - split; [apply Hh; left; reflexivity | exact Hk3].
+          - destruct (Hseen x Hx) as [HxU Hkx]. split; [exact HxU | apply (Hk2 Hm1); assumption]. }
+        destruct (IH s' Fin' S' (b :: seen) HI' Hh' Hseen') as (_ & _ & _ & Hre).
+        cbn [c01_refeed_b]. rewrite (Hre Hm2), andb_true_r.
+        destruct (existsb (block_eqb b) seen) eqn:Hex; [|reflexivity].
+        apply existsb_exists in Hex as (x & Hx & Heq). apply block_eqb_eq in Heq. subst x.
+        destruct (Hseen b Hx) as [_ Hb]. destruct (Hk1 Hb) as (_ & -> & ->). reflexivity.
+  Qed.
+
+  Theorem wild_lib_run m h : rooted m -> (forall b, In b h -> In b U) ->
+    let t := fk_run cfg (fs_init m) h in
+    length t = length h /\ Forall (fun x => snd x = ROk) t /\
+    (exists S', apply_all (ri r0) [] (all_events t) = Some S') /\
+    c01_discipline_b m t = true /\
+    c01_error_b (c_fail_at cfg) 0 t = true /\
+    (lib_mono_b cfg (fs_init m) h = true -> c01_refeed_b [] h t = true).
+  Proof.
+    intros Hm Hh. destruct (run_wild h (fs_init m) [] [] [] (inv_init m Hm) Hh) as (Hlen & Hok & (S' & Happ) & Hre).
+    { intros x []. }
+    cbn zeta. repeat split; try assumption.
+    - exists S'. exact Happ.
+    - unfold c01_discipline_b. replace (root_lib m (fk_run cfg (fs_init m) h)) with (ri r0) by (destruct Hm as [-> | ->]; reflexivity).
+      rewrite Happ. reflexivity.
+    - rewrite Hnofail. apply error_ok. exact Hok.
   Qed.
 End WildLib.
